@@ -74,6 +74,15 @@ CLAIMED = {
              "folded by cproc in static initialisers, static assertions, array bounds, enumerators, case labels, bit-field widths, _Alignas and ?: conditions on three targets; "
              "emitted bytes must equal the model's value in the model's type, the negated assertion and a duplicate case label must be rejected; address constants are compared as (symbol, offset).",
         note="cmodel.py is the oracle (cross-validated with gcc/clang through C01's run-time twin 'exprs' and by clang arbitration of every mismatch); thread-local initialisers use the same emitdata path and are covered by C07."),
+    "C05": dict(
+        category="exploration", design_ref="DESIGN.md 3/C05",
+        engine="enumeration+hypothesis",
+        technique="bounded-exhaustive enumeration of (operator, type, type) triples, literal spellings and a pointer/qualifier probe table observed through _Generic, plus Hypothesis nested expressions and derived-type pairs; oracle: independent typing model, clang/gcc arbitration",
+        text="Every (operator, left type, right type) triple over all arithmetic types, three enum types and bit-fields of ten widths, every integer literal spelling by base/suffix/magnitude, "
+             "character/floating literals and ~110 pointer/qualifier/decay/member expressions are typed by cproc (observed via _Generic selection emitted as data) and compared with the "
+             "C11 typing model; random nested expressions and random derived-type pairs for __builtin_types_compatible_p extend the search. The enumerated spaces are complete on x86_64 "
+             "(10 % sample on the other two targets in quick, complete in thorough).",
+        note="cmodel.py typing rules are the oracle; clang --target (and gcc for compatibility judgements) arbitrate; enum pointees and top-level qualified arrays are excluded from the compatibility pairs because gcc/clang deviate from C11 there."),
 }
 
 NOT_YET = "check not built yet in this round (planned per DESIGN.md section 10); no claim is made"
